@@ -19,17 +19,17 @@ type VSVal struct {
 	Type int    `json:"t"`
 	Sub  string `json:"s,omitempty"`
 	Tok  int    `json:"tok"`
-	Dyn  int    `json:"d"`                 // concrete type carrying the token (== Type unless Type is an interface)
-	Raw  bool   `json:"raw,omitempty"`     // interface-typed: store the concrete reflect.Value (not one of interface type)
+	Dyn  int    `json:"d"`             // concrete type carrying the token (== Type unless Type is an interface)
+	Raw  bool   `json:"raw,omitempty"` // interface-typed: store the concrete reflect.Value (not one of interface type)
 }
 
 // C15Case: Mode "set" = NewValueSet round-trips; "lifted" = value sets of a
 // positional function; "built" = differential built vs. ordinary function.
 type C15Case struct {
-	Mode  string   `json:"mode"`
-	Vals  []VSVal  `json:"vals,omitempty"`
-	Pos   []int    `json:"pos,omitempty"`   // lifted: positional types (may repeat)
-	Calls int      `json:"calls,omitempty"` // built: number of sequential calls
+	Mode   string  `json:"mode"`
+	Vals   []VSVal `json:"vals,omitempty"`
+	Pos    []int   `json:"pos,omitempty"`   // lifted: positional types (may repeat)
+	Calls  int     `json:"calls,omitempty"` // built: number of sequential calls
 	FailAt int     `json:"failAt,omitempty"`
 }
 
